@@ -112,34 +112,10 @@ def nsec_not_wildcard_expanded(cx, rule):
     return calls
 
 
-def run(cx):
-    signature_rules(cx, 'C06')
-    # ---------------- W1/S1: TTL writes in the validator, authenticated_ttl shape
-    f = cx.fn('C06.W1', N + 'VerifiedRrset::update_rrset')
-    ws = [w for w in writers(cx.prog, r'^hickory_proto::rr::record::Record$', r'^ttl$')
-          if w[0].crate == 'hickory_net' and '::dnssec::' in w[0].path]
-    cx.check('C06.W1', len(ws) >= 1 and all(w[0].path == N + 'VerifiedRrset::update_rrset' or
-                                             w[0].path.startswith(N + 'VerifiedRrset') for w in ws),
-             N + 'VerifiedRrset::update_rrset', 'writers', 'ttl-writer-set',
-             '; '.join(f'{w[0].path} ({w[4]}) @ {w[0].loc(w[1], w[2])}' for w in ws))
-    for w in ws:
-        fn, bb, si = w[0], w[1], w[2]
-        from api import Site
-        s = Site(fn, bb, si, 'store', 'Record.ttl')
-        cx.guard('C06.W1', [s], {'proof-secure': r'^is\(.*\.proof,Secure\)$|^is\(.*\.0,Secure\)$',
-                                 'ttl-present': r'^ok\(.*adjusted_ttl\)$|^ok\(.*\.1\)$'}, fn=fn)
-        st = fn.blocks[bb]['s'][si]
-        term = shorten(fn.term_rvalue(st[2], 0))
-        cx.check('C06.S1', 'adjusted_ttl' in term, fn.path, s.key(), 'ttl-from-adjusted_ttl', term[:200], s.loc)
-    a = cx.fn('C06.S1', 'hickory_proto::dnssec::rdata::rrsig::RRSIG::authenticated_ttl')
-    if a:
-        r = cx.returns(a, r'.')
-        ok = len(r) == 1 and bool(re.search(
-            r'^Ord::min\(Ord::min\(arg2\.ttl,.*\.input\.original_ttl\),num::saturating_sub\(.*\.input\.sig_expiration\.0,arg3\)\)$', r[0].term))
-        cx.check('C06.S1', ok, a.path, 'ret', 'min(ttl,original_ttl,expiration-now)', r[0].term if r else 'no return')
-
-    # ---------------- S2/G4: validation cache
-    k = cx.fn('C06.S2', N + "RrsetVerificationContext::key")
+def cache_key(cx, rule):
+    """the validation-cache key covers every record and every RRSIG of the RRset through one sequential hasher (shared by C06 -
+    'also not via a previously cached verdict' - and C07 - a cached Secure verdict must not extend to injected records)"""
+    k = cx.fn(rule, N + "RrsetVerificationContext::key")
     if k:
         hashed = [s.term for s in cx.calls(k, r'Hash>::hash$|Hash::hash$')]
         need = {'record data': r'next\(slice::iter\(arg1\.rrset\.records\)\)@Some\.0\.data',
@@ -147,9 +123,9 @@ def run(cx):
                 'rrsig data': r'next\(slice::iter\(arg1\.rrset\.signatures\)\)@Some\.0\.data',
                 'rrset key name': r'arg1\.key\.name', 'rrset type': r'arg1\.key\.record_type'}
         for nm, rx in need.items():
-            cx.check('C06.S2', any(re.search(rx, h) for h in hashed), k.path, 'hash-inputs', 'cache-key-covers:' + nm,
+            cx.check(rule, any(re.search(rx, h) for h in hashed), k.path, 'hash-inputs', 'cache-key-covers:' + nm,
                      f'{len(hashed)} hashed inputs')
-        cx.check('C06.S2', not any(re.search(r'current_time|Instant|\.ttl\b', h) for h in hashed), k.path, 'hash-inputs',
+        cx.check(rule, not any(re.search(r'current_time|Instant|\.ttl\b', h) for h in hashed), k.path, 'hash-inputs',
                  'cache-key-clock-independent', '')
         # every covered input reaches the key through ONE sequential hasher state: the hasher a Hash::hash call writes to is
         # found through the re-borrow chain of its second argument; a second hasher counts only if its finish() value is itself
@@ -190,13 +166,43 @@ def run(cx):
             for dst, h in fin.items():
                 if any(a0 == dst and h1 in feeds for a0, h1, _ in hcalls):
                     feeds.add(h)
-        cx.check('C06.S2', keyh is not None, k.path, 'ret', 'cache-key-is-a-hasher-finish', f'{len(fin)} finish() calls')
+        cx.check(rule, keyh is not None, k.path, 'ret', 'cache-key-is-a-hasher-finish', f'{len(fin)} finish() calls')
         for nm, rx in need.items():
             hs = [t for _, h1, t in hcalls if re.search(rx, t)]
             ok = bool(hs) and all(h1 in feeds for _, h1, t in hcalls if re.search(rx, t))
-            cx.check('C06.S2', ok, k.path, 'hash-inputs', 'sequential-hasher-receives:' + nm,
+            cx.check(rule, ok, k.path, 'hash-inputs', 'sequential-hasher-receives:' + nm,
                      'hashed into a hasher state whose value is not (only) hashed on into the key: a commutative fold loses multiplicity and order'
                      if not ok else f'{len(hs)} call(s)', sample={'input': nm, 'holds': ok})
+
+
+def run(cx):
+    signature_rules(cx, 'C06')
+    # ---------------- W1/S1: TTL writes in the validator, authenticated_ttl shape
+    f = cx.fn('C06.W1', N + 'VerifiedRrset::update_rrset')
+    ws = [w for w in writers(cx.prog, r'^hickory_proto::rr::record::Record$', r'^ttl$')
+          if w[0].crate == 'hickory_net' and '::dnssec::' in w[0].path]
+    cx.check('C06.W1', len(ws) >= 1 and all(w[0].path == N + 'VerifiedRrset::update_rrset' or
+                                             w[0].path.startswith(N + 'VerifiedRrset') for w in ws),
+             N + 'VerifiedRrset::update_rrset', 'writers', 'ttl-writer-set',
+             '; '.join(f'{w[0].path} ({w[4]}) @ {w[0].loc(w[1], w[2])}' for w in ws))
+    for w in ws:
+        fn, bb, si = w[0], w[1], w[2]
+        from api import Site
+        s = Site(fn, bb, si, 'store', 'Record.ttl')
+        cx.guard('C06.W1', [s], {'proof-secure': r'^is\(.*\.proof,Secure\)$|^is\(.*\.0,Secure\)$',
+                                 'ttl-present': r'^ok\(.*adjusted_ttl\)$|^ok\(.*\.1\)$'}, fn=fn)
+        st = fn.blocks[bb]['s'][si]
+        term = shorten(fn.term_rvalue(st[2], 0))
+        cx.check('C06.S1', 'adjusted_ttl' in term, fn.path, s.key(), 'ttl-from-adjusted_ttl', term[:200], s.loc)
+    a = cx.fn('C06.S1', 'hickory_proto::dnssec::rdata::rrsig::RRSIG::authenticated_ttl')
+    if a:
+        r = cx.returns(a, r'.')
+        ok = len(r) == 1 and bool(re.search(
+            r'^Ord::min\(Ord::min\(arg2\.ttl,.*\.input\.original_ttl\),num::saturating_sub\(.*\.input\.sig_expiration\.0,arg3\)\)$', r[0].term))
+        cx.check('C06.S1', ok, a.path, 'ret', 'min(ttl,original_ttl,expiration-now)', r[0].term if r else 'no return')
+
+    # ---------------- S2/G4: validation cache
+    cache_key(cx, 'C06.S2')
     g = cx.fn('C06.G4', N + 'ValidationCache::get')
     if g:
         some = cx.returns(g, r'^Option::Some\(')
